@@ -2,7 +2,9 @@
 
 One deliberately defective miniature of the three llamactl config classes; every rule must report
 its planted defect:
-  R1  EnvService.switch_environment changes the environment and keeps the profile pointer
+  R1  EnvService.switch_environment changes the environment and keeps the profile pointer;
+      ConfigManager.purge_environment falls back to the default environment and clears the pointer only if the stored name
+      is one of the purged environment's profiles (a value-dependent DELETE is not a clear)
   R2  ConfigManager.get_profile looks the name up across all environments
   R3  EnvService.probe_environment lets a probe service select a profile
   R4  switch_environment does not check that the url is known; delete_environment never resets
@@ -48,6 +50,13 @@ class ConfigManager:
             conn.execute("DELETE FROM environments WHERE api_url = ?", (api_url,))
             conn.commit()
             return True
+
+    def purge_environment(self, api_url):
+        with sqlite3.connect(self.db_path) as conn:
+            conn.execute("DELETE FROM settings WHERE key = 'current_profile' AND value IN (SELECT name FROM profiles WHERE api_url = ?)", (api_url,))
+            conn.execute("DELETE FROM profiles WHERE api_url = ?", (api_url,))
+            conn.execute("INSERT OR REPLACE INTO settings (key, value) VALUES ('current_environment_api_url', ?)", ("default",))
+            conn.commit()
 
 
 class AuthService:
